@@ -455,6 +455,20 @@ func runSIV(w *vt.Writer, full bool) {
 				c.dec("repeat", ct, f[1])
 			}
 		}
+		// the same primitive walked through the length classes in both directions (growing, shrinking to empty, growing),
+		// once in the plaintext and once in the associated data: per-object scratch or high-water-mark state would show
+		for wi, n := range dpk.Walk(0) {
+			pt, ad := content(r, n, wi), content(r, 7, wi+1)
+			if ct := c.encKind("walk", pt, ad, false); ct != nil {
+				c.dec("walk", ct, ad)
+			}
+		}
+		for wi, n := range dpk.Walk(0) {
+			pt, ad := content(r, 20, wi), content(r, n, wi+2)
+			if ct := c.encKind("walk", pt, ad, n == 0 && wi%2 == 0); ct != nil {
+				c.dec("walk", ct, ad)
+			}
+		}
 	}
 
 	// the streaming CMAC(data xorend last) routine itself, every length 16..(3 blocks + 1) and boundaries
@@ -819,6 +833,18 @@ func kwpLengths(w *vt.Writer, r *rand.Rand, seed int, full bool) {
 			for _, pt := range early { // determinism after every passed buffer was reused and scribbled over
 				if ct := c.wrap("repeat", pt, true); ct != nil {
 					c.unwrap("repeat", ct, true)
+				}
+			}
+			if chunkI == 0 { // payload lengths in both directions on the same KWP object
+				for wi, n := range dpk.Walk(16) {
+					if ct := c.wrap("walk", content(r, n, wi), true); ct != nil {
+						c.unwrap("walk", ct, true)
+					}
+				}
+				for wi, n := range []int{8192, 16, 4097, 17, 8191, 24} {
+					if ct := c.wrap("walk", content(r, n, wi), false); ct != nil {
+						c.unwrap("walk", ct, false)
+					}
 				}
 			}
 		}
